@@ -67,6 +67,11 @@ func (c *Encoder) encodeBackendProperty(prop *ast.BackendProperty) *Frame {
 	w.Write(c.encodeIdent(prop.Key).Encode())
 	if probe, ok := prop.Value.(*ast.BackendProbeObject); ok {
 		for _, p := range probe.Values {
+			// The parser accepts an object in an object
+			if _, ok := p.Value.(*ast.BackendProbeObject); ok {
+				w.Write(c.encodeBackendProperty(p).Encode())
+				continue
+			}
 			var bin []byte
 			bin = append(bin, c.encodeIdent(p.Key).Encode()...)
 			bin = append(bin, c.encodeExpression(p.Value).Encode()...)
@@ -153,7 +158,10 @@ func (c *Encoder) encodePenaltyboxDelcaration(p *ast.PenaltyboxDeclaration) *Fra
 
 	w.Write(c.encodeIdent(p.Name).Encode())
 
-	// Block statement must be empty so skip encode
+	// Block statement must be empty so skip encode unless the parser accepted statements in it
+	if p.Block != nil && len(p.Block.Statements) > 0 {
+		w.Write(c.encodeBlockStatement(p.Block).Encode())
+	}
 
 	return &Frame{
 		frameType: PENALTYBOX_DECLARATION,
@@ -168,7 +176,10 @@ func (c *Encoder) encodeRatecounterDeclaration(r *ast.RatecounterDeclaration) *F
 
 	w.Write(c.encodeIdent(r.Name).Encode())
 
-	// Block statement must be empty so skip encode
+	// Block statement must be empty so skip encode unless the parser accepted statements in it
+	if r.Block != nil && len(r.Block.Statements) > 0 {
+		w.Write(c.encodeBlockStatement(r.Block).Encode())
+	}
 
 	return &Frame{
 		frameType: RATECOUNTER_DECLARATION,
